@@ -50,20 +50,30 @@ def is_trim_call(unit, e):
     return e is not None and e['k'] == 'CallExpr' and (e.get('q') or '').split('::')[-1] == 'trim' and e.get('inrepo')
 
 
-def trim_preserving_helper(unit, call, argi):
-    """an in-repo function that leaves the reference parameter argi trimmed: its body assigns `p = trim(..)` and
-    nothing modifies p afterwards"""
+def trim_preserving_helper(unit, call, argi, depth=0):
+    """an in-repo function that leaves the reference parameter argi trimmed: the last thing it does to the parameter
+    is `p = trim(..)` or handing it to another such helper (all other in-place changes come before)"""
     g = unit.by_decl.get(call.get('cd'))
-    if g is None or g.body is None or argi >= len(g.params):
+    if g is None or g.body is None or argi >= len(g.params) or depth > 3:
         return False
     pd = g.params[argi]['d']
-    from .prov import assignments
-    last = None
-    for lhs, rhs, an in assignments(g):
-        l = strip(lhs)
-        if l is not None and l['k'] == 'DeclRefExpr' and l.get('d') == pd:
-            last = rhs
-    return last is not None and is_trim_call(unit, last)
+    events = []
+    for n in g.walk():
+        k = n['k']
+        if k in ('BinaryOperator', 'CXXOperatorCallExpr') and n.get('op') == '=':
+            ops = n.get('ch') if k == 'BinaryOperator' else n.get('args')
+            l = strip(ops[0]) if ops else None
+            if l is not None and l['k'] == 'DeclRefExpr' and l.get('d') == pd:
+                events.append('trim' if is_trim_call(unit, ops[1]) else 'other')
+        elif k == 'CXXMemberCallExpr' and not n.get('const') and (strip(n.get('obj')) or {}).get('d') == pd:
+            events.append('other')
+        elif k in ('CallExpr', 'CXXMemberCallExpr'):
+            pk = n.get('pk') or ''
+            for i, a in enumerate(n.get('args') or []):
+                sa = strip(a)
+                if sa is not None and sa['k'] == 'DeclRefExpr' and sa.get('d') == pd and i < len(pk) and pk[i] == 'r':
+                    events.append('trim' if (n.get('inrepo') and trim_preserving_helper(unit, n, i, depth + 1)) else 'other')
+    return bool(events) and events[-1] == 'trim'
 
 
 def check_trim(unit, fn, em):
